@@ -712,11 +712,11 @@ class PhrasePlugin(Plugin):
                         words.append(t.text)
                         char_ranges.append((sc + t.startchar, sc + t.endchar))
                 else:
-                    # We have a field but it doesn't have a format object,
-                    # for some reason (it's self-parsing?), so use process_text
-                    # to get the texts (we won't know the start/end chars)
-                    words = list(field.process_text(text, mode="query"))
-                    char_ranges = [(None, None)] * len(words)
+                    # We have a field but it doesn't have an analyzer (it's
+                    # self-parsing, like BOOLEAN), so the quoted text is the
+                    # value (we won't know the start/end chars)
+                    words = [text]
+                    char_ranges = [(None, None)]
             else:
                 # We're parsing without a schema, so just use the default
                 # regular expression to break the text into words
